@@ -33,7 +33,7 @@ from ..core import pool_map
 MODULE = "comm/BlockDiag.tla"
 DEVS = ["RejectedMetricCommitted", "NaiveKeepsCallerDict", "ReturnedNsAliasesChannel", "ArgsNotResetOnMetricChange",
         "StaleStreamCounts", "SolveStoresDecision"]
-ALL_ACTS = {"Construct", "SetMetric", "EditDict", "NewChannel", "SolveBD", "SolveExt", "CalcReceiveFilter", "Scribble"}
+ALL_ACTS = {"Construct", "SetMetric", "EditDict", "NewChannel", "SolveBD", "SolveExt", "CalcWhitening", "CalcReceiveFilter", "Scribble"}
 INVS = ["TypeOK", "MetricArgsConsistent", "ChannelIntact", "NoSharedDict", "RequiredAfterSolve"]
 PROPS = ["RejectedLeavesUnchanged", "OnlySetMetricChangesMetric", "SolveUsesCurrentMetric", "SolveLeavesConfig"]
 TOL = 1e-7          # (rel) nulling / power
@@ -51,6 +51,28 @@ def model(classes, ks, ants, ranks, pl, nvl, pel, sns, mods, plens, extras=False
     cfg = tlc.cfg_text(constants={"Extras": tlc.tla(bool(extras)), "Sweep": tlc.tla(bool(sweep))}, defs=defs, invariants=INVS,
                        properties=PROPS, action_constraints=["Emit"] if emit else [], view="view")
     return cfg, defs
+
+
+def tlc_cached(cfg, defs, timeout):
+    """TLC's output depends on the specification and the configuration only, never on the tree under test: with
+    VERIF_TLC_CACHE=<dir> (mutation campaigns) a run is stored under the hash of (module text, cfg, defs)"""
+    import hashlib
+    import os
+    import pickle
+    d = os.environ.get("VERIF_TLC_CACHE")
+    if not d:
+        return tlc.run(MODULE, cfg, defs=defs, env=JVM_ENV, timeout=timeout)
+    os.makedirs(d, exist_ok=True)
+    text = open(os.path.join(tlc.SPEC, MODULE)).read()
+    f = os.path.join(d, hashlib.md5((text + cfg + repr(sorted(defs.items()))).encode()).hexdigest() + ".pkl")
+    if os.path.exists(f):
+        return pickle.load(open(f, "rb"))
+    r = tlc.run(MODULE, cfg, defs=defs, env=JVM_ENV, timeout=timeout)
+    r.out = ""
+    with open(f + ".tmp", "wb") as fh:
+        pickle.dump(r, fh)
+    os.replace(f + ".tmp", f)
+    return r
 
 
 # ------------------------------------------------------------------------------ channels
@@ -121,7 +143,7 @@ def fro(x):
     return float(np.linalg.norm(x))
 
 
-def eval_bd(req, H, K, N, p, newH, Ms, W=None, stats=None):
+def eval_bd(req, H, K, N, p, newH, Ms, W=None, stats=None, nv=None):
     """(newH, Ms) of the plain block diagonalization [+ W = calc_receive_filter(newH)]"""
     bad = []
     KN = K * N
@@ -145,12 +167,33 @@ def eval_bd(req, H, K, N, p, newH, Ms, W=None, stats=None):
         bad.append(f"PowerReachedByOne: largest precoder block power {pw.max()} < {p}")
     if "PowerEqPerUser" in req and np.any(np.abs(pw - p) > TOL * p):
         bad.append(f"PowerEqPerUser: precoder block powers {pw} != {p}")
+    cp = np.sum(np.abs(Ms) ** 2, axis=0)
+    ce = np.sum(np.abs(E) ** 2, axis=0)
+    if "EffectiveStreamsOrthogonal" in req:
+        for k in range(K):
+            B = E[k * N:(k + 1) * N, k * N:(k + 1) * N]
+            Gm = B.conj().T.dot(B)
+            offd = fro(Gm - np.diag(np.diag(Gm)))
+            if offd > TOL * max(fro(Gm), 1e-300):
+                bad.append(f"EffectiveStreamsOrthogonal: the streams of user {k} are not orthogonal at the receiver (Gram off-diagonal "
+                           f"{offd:.3e} of {fro(Gm):.3e})")
+                break
+    if "WaterLevelCommonOnPoweredStreams" in req and nv is not None:
+        pwd = cp > POWERED * p
+        if pwd.sum() >= 1 and cp.sum() > 0:
+            q = cp[pwd] * (K * p) / cp.sum()            # allocation before the normalisation (total power K * p)
+            gains = ce[pwd] / cp[pwd]                   # channel power gain of each powered stream
+            level = q + nv / gains
+            if stats is not None and pwd.sum() >= 2:
+                stats["water_levels_compared"] = stats.get("water_levels_compared", 0) + 1
+            if level.max() - level.min() > 1e-6 * level.max():
+                bad.append(f"WaterLevelCommonOnPoweredStreams: power + noise/gain of the powered streams spreads from {level.min():.6g} "
+                           f"to {level.max():.6g} for total power {K * p}")
     if "ReceiveFilterInvertsOnPoweredStreams" in req and W is not None:
         W = np.asarray(W)
         if W.shape != (KN, KN):
             bad.append(f"receive filter shape {W.shape}")
         else:
-            cp = np.sum(np.abs(Ms) ** 2, axis=0)
             powered = cp > POWERED * p
             zero = cp == 0
             sel = powered | zero
@@ -217,6 +260,28 @@ def eval_ext(req, M, K, N, rE, p, lastrec, Ms, Wk, Ns, stats=None):
             if res > TOL * fro(Wk[k]) * fro(Hek):
                 bad.append(f"ExtIntRemovedWhenEnoughStreamsSacrificed: user {k} keeps {ns[k]} of {N} streams (ext. int. rank {rE}) "
                            f"but |W_k He_k| = {res:.3e}")
+    return bad
+
+
+def eval_whitening(req, M, K, N, rE, pe, nv, Wall):
+    """calc_whitening_matrices: filters (conjugate transpose already applied) with W_k R_k W_k^H = I for the covariance
+    R_k = pe He_k He_k^H + nv I of external interference plus noise, built here from the channel"""
+    bad = []
+    KN = K * N
+    if "WhiteningFiltersWhitenExtIntPlusNoise" not in req:
+        return bad
+    if len(Wall) != K:
+        return [f"{len(Wall)} whitening filters for {K} users"]
+    for k in range(K):
+        Hek = M[k * N:(k + 1) * N, KN:]
+        R = pe * Hek.dot(Hek.conj().T) + nv * np.eye(N)
+        W = np.asarray(Wall[k])
+        if W.shape != (N, N) or not np.all(np.isfinite(W)):
+            bad.append(f"whitening filter of user {k} has shape {W.shape} / non-finite entries")
+            continue
+        C = W.dot(R).dot(W.conj().T)
+        if not np.allclose(C, np.eye(N), atol=TOL_ID, rtol=0):
+            bad.append(f"WhiteningFiltersWhitenExtIntPlusNoise: W_k R_k W_k^H of user {k} deviates {np.abs(C - np.eye(N)).max():.3e} from I")
     return bad
 
 
@@ -381,7 +446,7 @@ class Driver:
             except Exception as ex:
                 return [(None, f"{a['op']} raised {type(ex).__name__}: {ex}")]
             self.res, self.res_M, self.W = (a["op"], newH, Ms), self.M, None
-            bad += [(None, b) for b in eval_bd(req, H, K, N, c["p"], newH, Ms, stats=self.stats)]
+            bad += [(None, b) for b in eval_bd(req, H, K, N, c["p"], newH, Ms, stats=self.stats, nv=c["nv"])]
             if "InputsUntouched" in req:
                 if not np.array_equal(Harg, H):
                     bad.append((None, "the channel matrix handed to the solve was modified"))
@@ -404,6 +469,13 @@ class Driver:
                 if not same_result((Ms, Wk, np.asarray(Ns, dtype=float)), (ref[0], ref[1], np.asarray(ref[2], dtype=float))):
                     bad.append((None, "the solve on this object differs from the same solve on a fresh object with the same metric "
                                 "(history leaked)"))
+        elif op == "CalcWhitening":
+            try:
+                Wall = o.calc_whitening_matrices(self.ch)
+            except Exception as ex:
+                return [(None, f"calc_whitening_matrices raised {type(ex).__name__}: {ex}")]
+            bad += [(None, b) for b in eval_whitening(req, self.M, K, N, rE, c["pe"], c["nv"], Wall)]
+            bad += [(None, b) for b in self.channel_untouched()]
         elif op == "CalcReceiveFilter":
             _, newH, Ms = self.res
             Kr = K
@@ -417,7 +489,7 @@ class Driver:
                 return [(None, f"calc_receive_filter raised {type(ex).__name__}: {ex}")]
             if not np.array_equal(arg, newH):
                 bad.append((None, "calc_receive_filter modified its argument"))
-            bad += [(None, b) for b in eval_bd(req, Hres, Kr, Nr_, c["p"], newH, Ms, W=W, stats=self.stats)]
+            bad += [(None, b) for b in eval_bd(req, Hres, Kr, Nr_, c["p"], newH, Ms, W=W, stats=self.stats, nv=c["nv"])]
         elif op == "Scribble":
             _, Ms, Wk, Ns = self.res
             try:
@@ -517,7 +589,7 @@ def model_devs(ctx):
     out = {}
     for dev in DEVS:
         cfg, defs = model(["EBD"], [2], [2], [1], ["hi"], ["lo"], ["hi"], [1, 2], ["PSK4"], [120], emit=False, dev=[dev])
-        r = tlc.run(MODULE, cfg, defs=defs, env=JVM_ENV, timeout=900)
+        r = tlc_cached(cfg, defs, 900)
         if not r.violated:
             raise tlc.TlcError(f"deviation {dev} is not detected by the laws of BlockDiag.tla")
         out[dev] = r.violated
@@ -551,7 +623,7 @@ def instances(tier):
     else:
         res.append(("history:BD", (["BD"], [3], [2, 3], [1], ["lo"], ["hi"], ["zero"], [1], ["PSK4"], [120]), {}, {"walks": 20, "walk_len": 10}))
         res.append(("history:WBD", (["WBD"], [2], [2, 3], [1, 2], ["hi"], ["lo"], ["hi"], [1], ["PSK4"], [120]), {}, {"walks": 20, "walk_len": 10}))
-        res.append(("history:EBD:K2", (["EBD"], [2], [2, 3], [1], ["hi"], ["lo"], ["hi"], [1, 2], ["PSK4"], [120]), {},
+        res.append(("history:EBD:K2", (["EBD"], [2], [2, 3], [1], ["hi"], ["lo"], ["hi"], [1, 2], ["PSK4"], [120]), {"extras": True},
                     {"walks": 60, "walk_len": 12, "max_len": 12}))
     return res
 
@@ -576,7 +648,7 @@ def run(ctx):
     def tlc_run(inst):
         label, args, kw, mode = inst
         cfg, defs = model(*args, **kw)
-        return tlc.run(MODULE, cfg, defs=defs, env=JVM_ENV, timeout=1800)
+        return tlc_cached(cfg, defs, 1800)
 
     with ThreadPoolExecutor(3) as ex:
         devf = ex.submit(model_devs, ctx)
@@ -588,7 +660,7 @@ def run(ctx):
         nedges[inst[0]] = explore(ctx, inst[0], r, inst[3], ctx.seed * 131 + n)
     ctx.notes["edges_per_instance"] = nedges
     ctx.require_actions(["Construct", "SetMetric", "SetMetricRejected", "EditDict", "NewChannel", "SolveBD", "SolveExt",
-                         "CalcReceiveFilter", "Scribble"])
+                         "CalcWhitening", "CalcReceiveFilter", "Scribble"])
     num = ctx.notes.get("numerics", {})
     if not ctx.violations and not ctx.known_hits:
         # non-vacuity of the conditional numerics
